@@ -158,6 +158,8 @@ class CoopThread:
             CTL.finish()
 
     def start(self):
+        if CTL is not None and _th.get_ident() in CTL.threads:
+            CTL.emit("spawn", self.name)
         self.t.start()
         while True:
             with CTL.mu:
